@@ -129,13 +129,25 @@ class Tacd:
         want = '%04X' % int(port)
 
         def up():
-            # passive readiness test: a connect+close probe would itself be a hostile connection
+            # passive readiness test: a connect+close probe would itself be a hostile connection.
+            # The listening socket must belong to *this* tacd (another process may own the port).
             if self.p.poll() is not None:
                 return True
             try:
+                inodes = set()
                 for line in open('/proc/net/tcp').read().splitlines()[1:]:
                     f = line.split()
                     if f[1].endswith(':' + want) and f[3] == '0A':
+                        inodes.add(f[9])
+                if not inodes:
+                    return False
+                fdd = '/proc/%d/fd' % self.p.pid
+                for fd in os.listdir(fdd):
+                    try:
+                        tgt = os.readlink(fdd + '/' + fd)
+                    except OSError:
+                        continue
+                    if tgt.startswith('socket:[') and tgt[8:-1] in inodes:
                         return True
             except OSError:
                 pass
